@@ -56,6 +56,7 @@ def run(chk):
         {"ctor": ctor, "conv": conv, "arith": arith, "note": note, "render": render}[st["kind"]](chk, ureg, st, rng)
     chk.traces += len(states)
     ufloat_with_unit(chk, ureg)
+    format_defaults_and_identity_conversion(chk)
     chk.mark("states")
     randomised(chk, ureg, rng, 1500 if chk.tier == "thorough" else 300)
     return chk.finish(
@@ -106,6 +107,42 @@ def ctor(chk, ureg, st, rng):
         and close(m.magnitude.nominal_value, fr(out["value"])) and close(m.magnitude.std_dev, fr(out["error"]))
     if not ok:
         chk.diverge(dict(sig, clause="accessors"), {"form": form, "value": v, "error": e, "unit": u, "observed": {k_: repr(x) for k_, x in got.items()}})
+
+
+def format_defaults_and_identity_conversion(chk):
+    """a measurement is rendered with the unit flags of default_format exactly as the plain quantity is (separate_format_defaults on
+    and off); converting to the units it already has is the same measurement - fully correlated with the original"""
+    import pint
+    for sep in (True, None):
+        u = pint.UnitRegistry()
+        u.formatter.default_format = "~"
+        if sep is not None:
+            u.separate_format_defaults = sep
+        m = u.Measurement(4.0, 0.1, "kilometer / second")
+        q = u.Quantity(4.0, "kilometer / second")
+        for spec in (".1f", ".2f", ""):
+            chk.case(("measurement-default-format", sep, spec))
+            try:
+                mt, qt = format(m, spec), format(q, spec)
+            except Exception as e:
+                chk.diverge({"kind": "render", "clause": "format-raises", "exc": type(e).__name__, "flag": "default"}, {"spec": spec, "separate_format_defaults": sep})
+                continue
+            if mt.split(") ")[-1] != qt.split(" ", 1)[-1]:
+                chk.diverge({"kind": "render", "clause": "measurement-unit-part-differs-from-quantity"}, {"spec": spec, "separate_format_defaults": sep, "measurement": mt, "quantity": qt})
+    u = pint.UnitRegistry()
+    for m in (u.Measurement(5.0, 0.5, "meter"), u.Quantity(5.0, "meter").plus_minus(0.5), u.Measurement(2.0, 0.1, "kilometer")):
+        un = str(m.units)
+        for name, f in (("to-same-unit", lambda: m - m.to(un)), ("to-other-unit", lambda: m - m.to("centimeter")), ("to_compact", lambda: m - m.to_compact()),
+                        ("to_base_units", lambda: m - m.to_base_units())):
+            chk.case(("identity-conversion", un, name))
+            try:
+                d = f()
+                ok = abs(d.magnitude.nominal_value) < 1e-12 and d.magnitude.std_dev < 1e-12
+            except Exception as e:
+                chk.diverge({"kind": "arith", "clause": "identity-conversion-raises", "form": name, "exc": type(e).__name__}, {"measurement": repr(m)})
+                continue
+            if not ok:
+                chk.diverge({"kind": "arith", "clause": "conversion-breaks-correlation", "form": name}, {"measurement": repr(m), "difference": repr(d)})
 
 
 def ufloat_with_unit(chk, ureg):
